@@ -12,7 +12,8 @@ ID = "C17"
 RULE = (
     "Hypothesis-generated full-row-rank matrices with prescribed singular values (1<=m<=6, m<=n<=10, cond <= 30 in "
     "float32 / 1e3 in float64 (300 for Aligned-MTL, whose rank cut uses float32 eps), global scale 10^[-6,6] / "
-    "10^[-30,30]), positive preference vectors over 2 decades, plus zero matrices of all shapes 1..8 x 1..10. "
+    "10^[-30,30]), optionally padded with 100 / 2000 / 20000 zero columns, optionally on an instance that already "
+    "processed the zero matrix or a matrix with a zero row, positive preference vectors over 2 decades, plus zero matrices of all shapes 1..8 x 1..10. "
     "Oracles = the defining equations with tolerance K (m+n) eps cond^2: IMTL-G: weights sum to 1 and (J A)_i / |g_i| equal "
     "for all i; ConFIG: cosines (J A)_i / (|g_i| |A|) positive and proportional to the preference (equal by default) "
     "and |A| = sum_i g_i . A/|A|; Aligned-MTL: r_i = AlignedMTL(e_i)(J) mutually orthogonal with |r_i| = sigma_min(J), "
@@ -24,7 +25,7 @@ ASSUMPTIONS = ["tolerance K (m+n) eps(dtype) cond(J)^2 with K = 50 (Gramian-base
 LEVEL_TEXT = "Generated-input search against the aggregators' defining equations on well-conditioned matrices. No proof."
 LEVEL_NOTE = "Trusted: NumPy float64 evaluation of projections/cosines/singular values; K calibrated with >= 10x head-room."
 TECHNIQUE = "property-based testing (Hypothesis) with defining-equation (validity predicate) oracles"
-REQUIRED_CLASSES = {"IMTLG": 1, "ConFIG": 1, "AlignedMTL": 1, "zero-matrix": 1, "pref:custom": 1}
+REQUIRED_CLASSES = {"wide": 1, "reused-instance": 1, "IMTLG": 1, "ConFIG": 1, "AlignedMTL": 1, "zero-matrix": 1, "pref:custom": 1}
 
 K = 50.0
 
@@ -50,7 +51,11 @@ def _case(draw):
     pref = None
     if name != "IMTLG" and draw(st.booleans()):
         pref = (10.0 ** rng.uniform(-1, 1, size=m)).tolist()
-    return {"agg": name, "dtype": dtype, "J": J.tolist(), "pref": pref, "zero": False, "scale_exp": e}
+    # many parameters that influence nothing (zero columns): same rows, same singular values, same defining equations
+    pad = draw(st.sampled_from([0, 0, 0, 0, 100, 2000, 20000]))
+    # the same instance may already have been used (on the zero matrix or on a matrix with zero rows, same row count)
+    pre = draw(st.sampled_from([None, None, "zero-matrix", "zero-row"]))
+    return {"agg": name, "dtype": dtype, "J": J.tolist(), "pref": pref, "zero": False, "scale_exp": e, "pad": pad, "pre": pre}
 
 
 def parts(tier):
@@ -68,6 +73,18 @@ def run_case(case) -> Outcome:
     m, n = J.shape
     out.cls(name, dtype, "pref:" + ("custom" if case["pref"] is not None else "default"))
     A = aggs.make({"name": name, "pref": case["pref"]}, dtype)
+    if case.get("pad"):
+        Jt = torch.cat([Jt, torch.zeros(Jt.shape[0], case["pad"], dtype=tdt)], dim=1)
+        J = Jt.double().numpy()
+        n = J.shape[1]
+        out.cls("wide")
+    if case.get("pre"):
+        P_ = torch.zeros_like(Jt) if case["pre"] == "zero-matrix" else Jt.clone()
+        if case["pre"] == "zero-row":
+            P_[0] = 0.0
+        out.cls("reused-instance")
+        if out.call(f"raises-in-pre-call:{name}", A, P_) is RAISED:
+            return out
     x = out.call(f"raises:{name}", A, Jt)
     if x is RAISED:
         return out
@@ -82,7 +99,7 @@ def run_case(case) -> Outcome:
     sv = np.linalg.svd(J, compute_uv=False)
     s, smin = sv[0], sv[m - 1]
     cond = s / smin
-    tol = K * (m + n) * eps * cond**2
+    tol = K * (m + n - (case.get("pad") or 0)) * eps * cond**2  # zero columns add no rounding error
     norms = np.linalg.norm(J, axis=1)
     u = np.ones(m) if case["pref"] is None else torch.tensor(case["pref"], dtype=tdt).double().numpy()
     G = J @ J.T
